@@ -118,6 +118,13 @@ func layersOf(s *Spec) []Layer {
 		return []Layer{stackL(s), mk(s, "*errutil.leafError", Leaf, S(0))}
 	case "newf":
 		return []Layer{stackL(s), mk(s, "*errutil.leafError", Leaf, fmtText(s))}
+	case "newf0":
+		return []Layer{stackL(s), mk(s, "*errutil.leafError", Leaf, "lit "+S(0))}
+	case "assertf0":
+		a := mk(s, "*assert.withAssertionFailure", Transparent, "")
+		a.Assert = true
+		a.Hint = assert.AssertionErrorHint + stdstrings.IssueReferral
+		return []Layer{a, stackL(s), mk(s, "*errutil.leafError", Leaf, "lit "+S(0))}
 	case "assertf":
 		a := mk(s, "*assert.withAssertionFailure", Transparent, "")
 		a.Assert = true
@@ -218,6 +225,12 @@ func layersOf(s *Spec) []Layer {
 		return []Layer{stackL(s), mk(s, "*errutil.withPrefix", Prefix, fmtText(s))}
 	case "withmsg":
 		return []Layer{mk(s, "*errutil.withPrefix", Prefix, S(0))}
+	case "wrapf0":
+		return []Layer{stackL(s), mk(s, "*errutil.withPrefix", Prefix, "lit "+S(0))}
+	case "withmsgf0":
+		return []Layer{mk(s, "*errutil.withPrefix", Prefix, "lit "+S(0))}
+	case "safedetailsnofmt":
+		return []Layer{mk(s, "*safedetails.withSafeDetails", Transparent, "")}
 	case "wrapfgosyntax":
 		sec := mk(s, "*secondary.withSecondaryError", Transparent, "")
 		sec.Hidden = s.X
